@@ -189,3 +189,27 @@ Section CentreModel.
     now apply centre_roundtrip_partial.
   Qed.
 End CentreModel.
+
+(* ---- the centre as a whole over the regenerated code: VertexF.centre (the model of getCenterPointOnVoxelOffset that the entries run) is the
+   three REGENERATED midpoint expressions centerLon / centerLat / centerAlt applied to the extreme coordinates of the eight vertices, and
+   each of the three is the float (max + min) / 2 — the latitude included (GenEqFVertex.centre_over_generated and the three
+   gen_getCenterPointOnVoxelOffset_center*_eq). Not regenerated: the scan for the extremes (a range loop over the vertex slice). ---- *)
+Theorem gen_centre_is_generated_midpoints ms ma h x y alt res :
+  centre ms ma h x y alt res =
+  match vertices ms ma h x y alt res with
+  | p0 :: _ =>
+      let ps := vertices ms ma h x y alt res in
+      let lons := map plon ps in let lats := map plat ps in let alts := map palt ps in
+      pt_of (g_clon x y h alt res (fmax_list lons (plon p0)) (fmin_list lons (plon p0)))
+            (g_clat x y h alt res (fmax_list lats (plat p0)) (fmin_list lats (plat p0)))
+            (g_calt x y h alt res (fmax_list alts (palt p0)) (fmin_list alts (palt p0)))
+  | [] => zero_point
+  end.
+Proof. exact (centre_over_generated ms ma h x y alt res). Qed.
+Theorem gen_centre_coordinates_are_float_midpoints x y h alt res (mx mn : pfloat) :
+  g_clon x y h alt res mx mn = ((mx + mn) / 2)%float /\ g_clat x y h alt res mx mn = ((mx + mn) / 2)%float /\
+  g_calt x y h alt res mx mn = ((mx + mn) / 2)%float.
+Proof.
+  split; [apply gen_getCenterPointOnVoxelOffset_centerLon_eq|]. split; [apply gen_getCenterPointOnVoxelOffset_centerLat_eq|].
+  apply gen_getCenterPointOnVoxelOffset_centerAlt_eq.
+Qed.
